@@ -149,9 +149,14 @@ impl Property for C05 {
             if let Some(w) = w {
                 let kx = match &a[w] { AStep::Watch(ks) => ks[0].clone(), _ => unreachable!() };
                 if let Some(m) = a.iter().enumerate().position(|(i, s)| i > w && matches!(s, AStep::Multi)) {
-                    setup.push(vec![b("SET"), kx.clone(), b("A0")]);
-                    let change = vec![b("SET"), kx.clone(), b("B1")];
-                    let restore = vec![b("SET"), kx.clone(), b("A0")];
+                    // one in four of these on a sorted set whose only score goes from 0 over 1 to -0: numerically where it was, but
+                    // another stored score (ZSCORE prints -0) - a change like any other
+                    let zero_sign = src.chance(1, 4);
+                    if zero_sign { rep.probe("watched_zset_score_from_zero_to_negative_zero"); }
+                    setup.push(if zero_sign { vec![b("DEL"), kx.clone()] } else { vec![b("SET"), kx.clone(), b("A0")] });
+                    if zero_sign { setup.push(vec![b("ZADD"), kx.clone(), b("0"), b("d")]); }
+                    let change = if zero_sign { vec![b("ZADD"), kx.clone(), b("1"), b("d")] } else { vec![b("SET"), kx.clone(), b("B1")] };
+                    let restore = if zero_sign { vec![b("ZADD"), kx.clone(), b("-0"), b("d")] } else { vec![b("SET"), kx.clone(), b("A0")] };
                     match src.below(4) {
                         0 => { restore_b.push((m, change)); restore_b.push((m, restore)); }                                                   // no second WATCH
                         1 => { a.insert(m, AStep::Watch(vec![kx.clone()])); restore_b.push((m, change)); restore_b.push((m + 1, restore)); }   // WATCH between the two
